@@ -71,8 +71,10 @@ func judgeInvalidation(r *Run, j *Judged, cl []*cls) {
 		}
 		deleteFailed := false
 		for _, s := range u.Store {
-			if s.Kind == "delete" && s.Fault != "" {
-				deleteFailed = true // what the store refuses to delete cannot be invalidated
+			if s.Kind == "delete" && s.Fault != "" && s.IsIndex {
+				// an index the store refuses to delete keeps its entries reachable: nothing the cache can do.
+				// (A refused delete of one entry is different: deleting the index still makes it unreachable.)
+				deleteFailed = true
 			}
 		}
 		if deleteFailed {
@@ -453,7 +455,12 @@ func judgeExpectedHits(r *Run, j *Judged, cl []*cls, by map[int]*OResp) {
 		}
 		if L.Is304 {
 			// served from the store: it must show the 304's header fields and the unchanged body
-			if cx.H == nil || cx.H.SID != L.SID || cx.B != body {
+			if L.Bare {
+				// no provenance marker to look for: the unchanged body is all that can be checked
+				if cx.B != body {
+					j.fail("C08", "freshen-lost", x, "fields", "after the 304 sid=%d the stored response is served with body sid=%d (want %d)", L.SID, sidOf(cx.B), body.SID)
+				}
+			} else if cx.H == nil || cx.H.SID != L.SID || cx.B != body {
 				j.fail("C08", "freshen-lost", x, "fields", "after the 304 sid=%d the stored response is served with header provenance sid=%d body sid=%d (want %d / %d)", L.SID, sidOf(cx.H), sidOf(cx.B), L.SID, body.SID)
 			} else {
 				// "... served from the store with the updated fields": every end-to-end field the 304 carried
